@@ -358,6 +358,17 @@ let handle_series (rest : string list) : string =
       "nl=" ^ one false ^ " lo=" ^ one true
   | _ -> failwith "series request"
 
+(* ---- C08: the call-tree pre-pass (Model/CallTree.v): calltree <callees of sub 0>|<callees of sub 1>|...  ("-" = none) *)
+let handle_calltree (rest : string list) : string =
+  match rest with
+  | [gs] ->
+      let subs = List.map (fun w -> if w = "-" then [] else List.map (fun c -> nat_of_int (int_of_string c)) (split_on ',' w))
+          (split_on '|' gs) in
+      (match check_call_tree (z_of_dec (string_of_int (int_of_nat maxSubroutineCallTree))) subs with
+       | OK true -> "ok accepted" | OK false -> "ok rejected"
+       | Err -> "err" | Crash -> "crash" | OutOfFuel -> "outoffuel")
+  | _ -> failwith "calltree request"
+
 let handle (req : string) : string =
   match split_on ' ' req with
   | ("acl" | "aclspec" | "aclold" as w) :: rest -> handle_acl w rest
@@ -366,6 +377,7 @@ let handle (req : string) : string =
   | "inc" :: rest -> handle_inc rest
   | "prog" :: rest -> handle_prog (String.concat " " rest)
   | "series" :: rest -> handle_series rest
+  | "calltree" :: rest -> handle_calltree rest
   | _ -> failwith "unknown request"
 
 let () = Common.serve handle
